@@ -234,7 +234,7 @@ def _load():
     core = profile(time={"lat": 0.6, "cont": 0.4}, ordinary_only=True, sched=0.0, slot=0.0, ps=0.0, zero=0.0, inf=0.1, exact=0.0, preempt=0.0, cct=0.0, spf=0.0,
                    f_zero=0.5, tdep=0.2, plan={"time": 0.8, "cust": 0.2}, splits=1, qcap=0.6, syscap=0.2, batch=0.3, baulk=0.3, renege=0.35, jockey=0.4,
                    ccm=0.3, prio=0.5, disc=0.4, route_kinds={"matrix": 0.4, "net": 0.45, "pb": 0.15, "fpb": 0.0},
-                   policies=["uniform"], horizon=[8.0, 15.0, 30.0], disc_opts=["FIFO", "LIFO"], jsq_tb=["order"])
+                   policies=["uniform"], horizon=[8.0, 15.0, 30.0], disc_opts=["FIFO", "LIFO", "SIRO"], jsq_tb=["order"])
     NO_KFA = ("KF-B", "KF-C", "KF-D", "KF-E")     # explore the region of the open finding KF-A (pre-emptive shift end / slot x blocking)
     kfa = profile(rules=NO_KFA, sched=0.6, qcap=0.9, qcap_vals=[INF, 0, 0, 1, 2], n=[2, 2, 3], exact=0.0, ps=0.0,
                   sched_pre_opts=["resume", "restart", "resample", "reroute"], slot=0.15)
